@@ -63,6 +63,7 @@ type SimNode struct {
 	trans *SimTransport
 	conf  *config.Config
 	store hg.Store
+	spell string // the node's public key as the peers files spell it ("": babble's own upper-case form)
 
 	storeKind string
 	dbPath    string
@@ -151,7 +152,13 @@ func (n *SimNode) state() _state.State { return n.node.GetState() }
 
 func (n *SimNode) core() node.SimCore { return n.node.SimCore() }
 
-func (n *SimNode) peer() *peers.Peer { return peers.NewPeer(n.pubHex, n.addr, n.moniker) }
+func (n *SimNode) peer() *peers.Peer {
+	if n.spell != "" {
+		// the key as the peers files of this network spell it (lower case, 0x)
+		return peers.NewPeer(n.spell, n.addr, n.moniker)
+	}
+	return peers.NewPeer(n.pubHex, n.addr, n.moniker)
+}
 
 // task is a goroutine running a blocking node operation (join, leave).
 type task struct {
@@ -251,7 +258,7 @@ type Cluster struct {
 	syn               *synthState
 	synTxn            int
 	synPTx            float64 // share of synthetic events that carry payload (0: default)
-	synFairFrom       int // synthetic histories: number of events created before the fair continuation (0: none)
+	synFairFrom       int     // synthetic histories: number of events created before the fair continuation (0: none)
 	synFairCycles     int
 	refDag            *refDag
 	refFame           *refFame
